@@ -145,6 +145,8 @@ type Cluster struct {
 	// EventsToAll makes PushEvent send on every started connection, registered or not
 	// (a misbehaving node).
 	EventsToAll bool
+	// CompressEvents makes pushed events compressed on connections that negotiated compression.
+	CompressEvents bool
 	// SystemFateFn, when set, decides the fate of each system reply.
 	SystemFateFn func(sc *SConn, rec *ReqRec) Fate
 
@@ -554,6 +556,16 @@ func (cl *Cluster) PushEvent(ev *cqlspec.Response) int {
 		e.Op = cqlspec.OpEvent
 		e.Version = sc.Version
 		e.Stream = -1
+		if cl.ResponseCompress || cl.CompressEvents {
+			// a node compresses what it pushes like any other frame of a connection that
+			// negotiated compression
+			switch sc.Compression {
+			case "snappy":
+				e.Compress = cqlspec.SnappyEncodeLiteral
+			case "lz4":
+				e.Compress = cqlspec.CassandraLZ4EncodeLiteral
+			}
+		}
 		if e.Version == 5 {
 			e.ExtraFlags |= cqlspec.FlagBeta
 		}
